@@ -1,6 +1,7 @@
 import DiscretModel.Model.Proto
 import DiscretModel.Model.Value
 import DiscretModel.Model.Query
+import DiscretModel.Model.SqlSem
 /-
 Model driver for engine `query` (exe `dmodel_query`), same op files as `dv-query run`.
 
@@ -731,6 +732,80 @@ def step (c : Case5) (kind : String) (toks : List String) : Case5 × String :=
     | none => (c, "bad-op")
   | _ => (c, "bad-op")
 
+/-! ### the SQL compiler model (`Model/SqlGen.lean`, `Model/SqlSem.lean`): ops `sqlck`, `sqltbl` -/
+open Discret.SqlGen Discret.SqlSem in
+/-- position of field `j` among the fields of its entity as the data model numbers them: the fields of the first
+    model version in order, then the fields added later in order (`Entity::insert_field`: 32 + position) -/
+def fieldRank (fs : List FieldS) (j : Nat) : Nat :=
+  match fs[j]? with
+  | some f =>
+    if f.late then (fs.filter (!·.late)).length + ((fs.take j).filter (·.late)).length
+    else ((fs.take j).filter (!·.late)).length
+  | none => fs.length + j
+
+open Discret.SqlGen Discret.SqlSem in
+def namesOf (c : Case5) (table : String) : Names :=
+  { table,
+    entShort := fun i => if c.ns then s!"1.{i}" else s!"{i}",
+    fieldShort := fun e j => toString (32 + fieldRank ((c.ents[e]?).getD []) j) }
+
+/-- the variable of the i-th filter: the harness numbers the variables `p0, p1, …` in filter order -/
+def varName (fs : List Discret.Query.Filter) (i : Nat) : String :=
+  s!"p{((fs.take i).filter (·.isParam)).length}"
+
+def showSqlVal : Discret.SqlSem.SqlVal → String
+  | .null => "N"
+  | .int i => s!"I{i}"
+  | .text s => "S" ++ QDriver.encCps s
+
+def showVal : Val → String
+  | .null => "N"
+  | .int i => s!"I{i}"
+  | .bool b => if b then "B1" else "B0"
+  | .str s => "S" ++ cps s
+
+open Discret.SqlGen Discret.SqlSem in
+def stepSql (c : Case5) (kind : String) : String :=
+  match kind with
+  | "sqlck" =>
+    if !c.built then "err:nodb" else
+    match getNode c 0, buildQuery c FUEL 0 with
+    | some nd, some q =>
+      let s := schemaOf c
+      if !inFragment s q then "notfragment"
+      else if !(cursorTyped c q q.after && cursorTyped c q q.before) then "err:pagingtype"
+      else if q.filters.any (fun f => f.isParam && f.value == .null &&
+          !((fieldDef s q.ent f.fld).map (·.nullable)).getD false) then "err:notnull"
+      else
+        let nm := namesOf c (rootKey c nd)
+        let vn := varName q.filters
+        let env : String → Val := fun x =>
+          match (q.filters.zipIdx.find? fun (f, i) => f.isParam && vn i == x) with
+          | some (f, _) => f.value
+          | none => .null
+        let stmt := compile nm s vn q
+        let par := (List.range stmt.binds.length).map fun i => showSqlVal (bindVal env stmt.binds (i + 1))
+        let rows := run (encode nm c.rows) stmt env
+        "sql=" ++ QDriver.pct (render stmt) ++ " par=" ++ (if par.isEmpty then "-" else joinWith ";" par) ++
+          " rows=[" ++ joinWith "," (canonRows c FUEL q rows) ++ "]"
+    | _, _ => "bad-op"
+  | "sqltbl" =>
+    if !c.built then "err:nodb" else
+    let nm := namesOf c ""
+    let scalarShorts (e : Nat) : List String :=
+      (((c.ents[e]?).getD []).zipIdx.filter fun (f, _) =>
+        match f.kind with | .int | .str | .bool => true | _ => false).map fun (_, j) => nm.fieldShort e j
+    let rows := (c.rows.map fun r =>
+      let t := encodeRow nm r
+      let items := (t.json.filter fun kv => (scalarShorts r.ent).contains kv.1).map fun kv => kv.1 ++ "=" ++ showVal kv.2
+      (r.id, s!"{r.id}:{t.entity}:" ++ "{" ++ joinWith ";" (sortStr items) ++ "}"))
+    "tbl=" ++ joinWith "|" ((rows.foldr (fun x acc => insertRow x acc) []).map (·.2))
+  | _ => "bad-op"
+where
+  insertRow (x : Nat × String) : List (Nat × String) → List (Nat × String)
+    | [] => [x]
+    | y :: t => if x.1 ≤ y.1 then x :: y :: t else y :: insertRow x t
+
 end Q5
 
 /-! ## C04, update stream (`e=c04u`) -/
@@ -830,6 +905,14 @@ def stepLine (s : St) (line : String) : St × String :=
   | "upd" :: rest =>
     match s.c04u with
     | some u => let (u', o) := stepU u "upd" rest; ({ s with c04u := some u' }, o)
+    | none => (s, "bad-op")
+  | "sqlck" :: _ =>
+    match s.c05 with
+    | some c => (s, Q5.stepSql c "sqlck")
+    | none => (s, "bad-op")
+  | "sqltbl" :: _ =>
+    match s.c05 with
+    | some c => (s, Q5.stepSql c "sqltbl")
     | none => (s, "bad-op")
   | kind :: rest =>
     if ["ent", "fld", "build", "upgrade", "row", "q", "qs", "qe", "qg", "qj", "qf", "qo", "ql", "qa", "qn", "run", "pages"].contains kind then
